@@ -1646,3 +1646,70 @@ def c06_tamper(opts):
                     u()
     t.exhaustive = False
     return _result(t)
+
+
+# ----------------------------------------------------------------------------------------------------------------
+# one Keychain object used across signing passes (keys arrive between the passes)
+# ----------------------------------------------------------------------------------------------------------------
+@bounded("C05.keychain_histories", props=["C05"],
+         bound="seeded histories: m-of-n P2SH multisig (n <= 3) plus a P2PKH input, hierarchical co-signers registered by public key "
+               "paths in ONE Keychain, private keys added one at a time in a seeded order with a signing pass after each; quick 24 / "
+               "thorough 240 histories")
+def c05_keychain_histories(opts):
+    from pycoin.symbols.btc import network
+    from pycoin.satoshi import flags as F
+    rng = random.Random(opts["seed"] * 1000003 + 599)
+    Tx = network.tx
+    std = (F.VERIFY_P2SH | F.VERIFY_STRICTENC | F.VERIFY_DERSIG | F.VERIFY_LOW_S | F.VERIFY_NULLDUMMY | F.VERIFY_SIGPUSHONLY
+           | F.VERIFY_MINIMALDATA | F.VERIFY_DISCOURAGE_UPGRADABLE_NOPS | F.VERIFY_CLEANSTACK | F.VERIFY_CHECKLOCKTIMEVERIFY
+           | F.VERIFY_CHECKSEQUENCEVERIFY | F.VERIFY_WITNESS | F.VERIFY_DISCOURAGE_UPGRADABLE_WITNESS_PROGRAM | F.VERIFY_MINIMALIF
+           | F.VERIFY_NULLFAIL | F.VERIFY_WITNESS_PUBKEYTYPE)
+    t = Tally(rule="one case = one history.  After each pass the P2PKH input is valid iff its owner's private key has been added, and the "
+                   "multisig input iff at least m of its listed co-signers' private keys have been added (STANDARD flags); nothing but "
+                   "unlocking data changes; a fresh Keychain given the same keys agrees")
+    for h in range(24 if opts["tier"] == "quick" else 240):
+        n = rng.choice([2, 2, 3])
+        m = rng.randrange(1, n + 1)
+        path_pay, path_ms = "0/%d" % rng.randrange(5), "1/%d" % rng.randrange(9)
+        signers = [network.keys.bip32_seed(b"c05 keychain %d/%d" % (h, i)) for i in range(n)]
+        ms_keys = [s.subkey_for_path(path_ms) for s in signers]
+        pay_key = signers[0].subkey_for_path(path_pay)
+        multisig = network.contract.for_multisig(m, [k.sec() for k in ms_keys])
+        unspents = [Tx.TxOut(50000, network.contract.for_p2pkh(pay_key.hash160())), Tx.TxOut(60000, network.contract.for_p2s(multisig))]
+        tx = Tx(1, [Tx.TxIn(bytes([0xA1]) * 32, h), Tx.TxIn(bytes([0xB2]) * 32, 3)], [Tx.TxOut(100000, network.contract.for_p2pkh(bytes([3]) * 20))])
+        tx.set_unspents(unspents)
+        frozen = (tx.version, tx.lock_time, [(i.previous_hash, i.previous_index, i.sequence) for i in tx.txs_in], [(o.coin_value, o.script) for o in tx.txs_out])
+        kc = network.keychain()
+        for s in signers:
+            kc.add_key_paths(s.public_copy(), [path_pay, path_ms])
+        kc.add_p2s_script(multisig)
+        order = list(range(n))
+        rng.shuffle(order)
+        added = []
+        ok = True
+        try:
+            tx.sign(kc, p2sh_lookup=kc)          # a pass with no private key at all: every lookup misses
+        except Exception:
+            pass
+        for idx in order:
+            kc.add_secret(signers[idx])
+            added.append(idx)
+            try:
+                tx.sign(kc, p2sh_lookup=kc)
+                got = [tx.is_solution_ok(i, flags=std) for i in range(2)]
+            except Exception as ex:
+                got = repr(ex)
+            want = [0 in added, len(added) >= m]
+            if got != want:
+                t.violation("signing with one Keychain across passes: after adding the private keys of co-signers %s (m=%d of n=%d) the inputs "
+                            "validate as %s, expected %s" % (added, m, n, got, want),
+                            {"history": h, "m": m, "n": n, "order": order, "added": list(added), "got": str(got), "want": want},
+                            finding_key="keychain-history-verdict-wrong")
+                ok = False
+                break
+        now = (tx.version, tx.lock_time, [(i.previous_hash, i.previous_index, i.sequence) for i in tx.txs_in], [(o.coin_value, o.script) for o in tx.txs_out])
+        if now != frozen:
+            t.violation("signing changed something other than unlocking data", {"history": h}, finding_key="sign-changes-committed-fields")
+            ok = False
+        t.case(("kc", h), nontrivial=ok, sample={"m": m, "n": n, "order": order})
+    return t.result()
